@@ -769,7 +769,7 @@ func main() {
 	vals = append(vals, edgeValues()...)
 	nRand := 400
 	if a.Thorough() {
-		nRand = 20000
+		nRand = 6000 // 15x quick; a case costs ~0.1 s of coqc (big-number literals + model evaluation)
 	}
 	if a.N > 0 {
 		nRand = a.N
@@ -899,7 +899,7 @@ func main() {
 	ctexts = append(ctexts, handTexts...)
 	nMut := 400
 	if a.Thorough() {
-		nMut = 10000
+		nMut = 4000
 	}
 	for i := 0; i < nMut; i++ {
 		var base string
@@ -939,9 +939,12 @@ func main() {
 		idx++
 		nC++
 	}
-	// balance the shards: heaviest terms first, dealt round-robin into 8 shards (padded with a trivial case)
+	// balance the shards: heaviest terms first, dealt round-robin into 8 shards (thorough: 32; padded with a trivial case)
 	sort.SliceStable(pending, func(i, j int) bool { return len(pending[i]) > len(pending[j]) })
-	const nShards = 8
+	nShards := 8
+	if a.Thorough() {
+		nShards = 32
+	}
 	per := (len(pending) + nShards - 1) / nShards
 	if per == 0 {
 		per = 1
